@@ -344,6 +344,23 @@ class Line(PyStub):
     def strip(self):
         return ' '.join(str(t) for t in self.tokens)
 
+    def partition(self, sep):
+        if sep != '#':
+            raise Opaque('line partition at %r' % (sep,))
+        if self.comment is None:
+            return (self, '', Line([]))
+        return (Line(self.tokens), '#', Line(self.comment))
+
+    def find(self, ch):
+        if ch == '#':
+            return len(self.tokens) if self.comment is not None else -1
+        raise Opaque('line find %r' % (ch,))
+
+    def __contains__(self, ch):
+        if ch == '#':
+            return self.comment is not None
+        return any(str(t) == ch for t in self.tokens)
+
     def index(self, ch):
         if ch == '#' and self.comment is not None:
             return len(self.tokens)          # token position stands for the character position
